@@ -8,6 +8,9 @@ Property C08 as decidable predicates on OBSERVED outputs.
 * `holdsSortedOn`  — what a deterministic emission of a set must look like: a rearrangement of its input that is
                      ordered by a key.  (`Props`: two lists that satisfy it for rearranged inputs are EQUAL when keys
                      are distinct, so nothing of the iteration order can survive.)
+* `holdsInfoStable` / `holdsOverride` — InfoCompiler (variable-font fontinfo overrides): the master's Info object shows the
+                     same attributes afterwards; the temporary Info has the override value for every overridden
+                     attribute, the master's value for every other one, and nothing else.
 * `holdsPartition` — splitKerning's buckets: script tuples pairwise disjoint, every bucket's pairs ordered.
 -/
 namespace Ufo2ft.C08
@@ -29,6 +32,14 @@ def holdsPure (ref : List (String × String)) (obs : List (String × String)) : 
 /-- a glyph copy made from a defcon glyph and one made from a ufoLib2 glyph both show exactly the source's observable fields -/
 def holdsCopy (src viaUfoLib2 viaDefcon : GlyphRec) : Bool :=
   viaUfoLib2.observable == src.observable && viaDefcon.observable == src.observable
+
+/-- the caller's Info object (all attributes, canonical order) before and after the call -/
+def holdsInfoStable (before after : InfoD) : Bool := before == after
+
+/-- for every attribute that occurs anywhere: the temporary Info has the override when there is one, else the master's
+value (absent when the master has none) -/
+def holdsOverride (src ov temp : InfoD) : Bool :=
+  (src ++ ov ++ temp).all (fun e => alookup e.1 temp == (match alookup e.1 ov with | some v => some v | none => alookup e.1 src))
 
 /-- buckets of splitKerning: keys pairwise disjoint script sets, each key itself sorted, each pair list sorted by
 the KerningPair order. -/
